@@ -170,6 +170,56 @@ func c20Case(r *rand.Rand) Case {
 	if dom.VerifDump(d) != after {
 		fail = append(fail, "Serialize or a list accessor modified the representation of the document")
 	}
+	// slices handed out by Items() / AsSlice() belong to the caller too — also those of the read-only
+	// view of a list: overwriting, reordering or appending to them is not a write to d
+	if pn := guard(func() {
+		var visit func(n dom.Node)
+		visit = func(n dom.Node) {
+			if c, ok := n.(dom.Container); ok {
+				for _, ch := range c.Children() {
+					visit(ch)
+				}
+				return
+			}
+			l, ok := n.(dom.List)
+			if !ok {
+				return
+			}
+			views := []dom.List{l}
+			if lb, ok := n.(dom.ListBuilder); ok {
+				views = append(views, lb.Seal())
+			}
+			for _, v := range views {
+				wantLen := v.Size()
+				it1, it2 := v.Items(), v.Items()
+				it1 = append(it1, dom.LeafNode("reader-1"))
+				it2 = append(it2, dom.LeafNode("reader-2"))
+				if len(it1) > wantLen && it1[wantLen].(dom.Leaf).Value() != "reader-1" {
+					fail = append(fail, "two readers appending to their own Items() results overwrote each other")
+				}
+				for i := range it1 {
+					it1[i] = dom.LeafNode("scribble")
+				}
+				_ = it2
+				sl := v.AsSlice()
+				for i := range sl {
+					sl[i] = "scribble"
+				}
+				if v.Size() != wantLen {
+					fail = append(fail, "writing into the slice returned by Items() changed the size of the list")
+				}
+			}
+			for _, ch := range l.Items() {
+				visit(ch)
+			}
+		}
+		visit(d)
+	}); pn != "" {
+		fail = append(fail, "panic around Items(): "+pn)
+	}
+	if dom.VerifDump(d) != after {
+		fail = append(fail, "writing into the slice returned by Items()/AsSlice() modified the representation of the document")
+	}
 	// plain values handed out by AsMap belong to the caller: scribbling on them (also inside empty
 	// maps and lists) is not a write to d, nor to any other document
 	if pn := guard(func() {
